@@ -12,6 +12,7 @@ import (
 	"net/http"
 	"net/url"
 	"os"
+	"runtime"
 	"sort"
 	"strconv"
 	"strings"
@@ -600,6 +601,7 @@ func main() {
 		cases = append(cases, realtime())
 		http.DefaultServeMux = http.NewServeMux() // the crossbar registers "/" on the default mux: one relay per mux
 		cases = append(cases, realtimeConnections())
+		concurrentStore(res, a.Pick(1, 4))
 	}
 
 	coq := make([]string, len(cases))
@@ -765,4 +767,132 @@ func realtimeConnections() Case {
 		c.Ops, c.Outs = c.Ops[:1], c.Outs[:1]
 	}
 	return c
+}
+
+// concurrentStore: the register's invariants when store operations OVERLAP (there is no scheduling point inside an
+// operation, so this is a stress with an invariant checked afterwards, not an enumeration). Every operation is one
+// critical section, so whatever the overlap the outcome is that of some order:
+//
+//	(a) a prune racing re-denies: thousands of entries have lapsed; while Prune runs, each id is denied again until far
+//	    in the future. Whichever comes first, every id ends up denied (prune drops only entries whose OWN expiry passed);
+//	(b) a session request racing a deny on a fresh id: afterwards the id is never on both lists.
+func concurrentStore(res *lib.Result, rounds int) {
+	report := func(clause, detail string, rep map[string]interface{}) {
+		res.Violate(lib.Violation{Clause: clause, Case: -1, Detail: detail, Replay: rep, Key: clause + ":concurrent-store"})
+	}
+	for round := 0; round < rounds; round++ {
+		ds := deny.New()
+		var hold int32
+		release := make(chan struct{})
+		ds.SetNowFunc(func() int64 {
+			if atomic.CompareAndSwapInt32(&hold, 1, 2) {
+				<-release // the prune's own clock reading waits (inside its critical section) until the re-denies queue up
+			}
+			return 1000
+		})
+		n := 3000 + 500*round
+		ids := make([]string, n)
+		for i := range ids {
+			ids[i] = fmt.Sprintf("lapsed-%d-%d", round, i)
+			ds.Deny(ids[i], 900) // already lapsed at clock 1000
+			if i%3 == 0 {
+				ds.Allow(fmt.Sprintf("lapsed-allow-%d-%d", round, i), 900)
+			}
+		}
+		var wg sync.WaitGroup
+		wg.Add(1)
+		atomic.StoreInt32(&hold, 1)
+		go func() { defer wg.Done(); ds.Prune() }()
+		for atomic.LoadInt32(&hold) != 2 { // the prune is inside, holding the lock
+			time.Sleep(time.Millisecond)
+		}
+		for _, id := range ids {
+			wg.Add(1)
+			go func(id string) { defer wg.Done(); ds.Deny(id, 50000) }(id)
+		}
+		time.Sleep(30 * time.Millisecond) // let them queue on the store's lock
+		close(release)
+		wg.Wait()
+		missing := 0
+		first := ""
+		for _, id := range ids {
+			if !ds.IsDenied(id) {
+				if missing == 0 {
+					first = id
+				}
+				missing++
+			}
+		}
+		res.Count("concurrent:prune-vs-redeny")
+		if missing > 0 {
+			report("vanished-before-own-expiry", fmt.Sprintf("%d lapsed deny entries; while Prune was running each id was denied again until 50000 (clock 1000): afterwards %d of the re-denied ids are not denied (first: %q) - a prune may drop only entries whose own expiry has passed", n, missing, first),
+				map[string]interface{}{"kind": "prune-vs-redeny", "entries": n, "missing": missing})
+			break
+		}
+	}
+	// (b) a session request racing a deny on a fresh id, released together pair by pair, relative timing swept
+	ds := deny.New()
+	ds.SetNowFunc(func() int64 { return 1000 })
+	pairs := 150000 * rounds
+	both := 0
+	firstBoth := ""
+	const batch = 5000
+	var aReady, bReady int64
+	spin := func(k int) {
+		for x := 0; x < k; x++ {
+			runtime.KeepAlive(x)
+		}
+	}
+	for p := 0; p < pairs && both == 0; p += batch {
+		ids := make([]string, batch)
+		for i := range ids {
+			ids[i] = fmt.Sprintf("fresh-%d", p+i)
+		}
+		atomic.StoreInt64(&aReady, 0)
+		atomic.StoreInt64(&bReady, 0)
+		var wg sync.WaitGroup
+		wg.Add(2)
+		go func() {
+			defer wg.Done()
+			for i, id := range ids {
+				atomic.StoreInt64(&aReady, int64(i+1))
+				for atomic.LoadInt64(&bReady) < int64(i+1) {
+				}
+				spin(i % 40)
+				ds.AllowIfNotDenied(id, 50000)
+			}
+		}()
+		go func() {
+			defer wg.Done()
+			for i, id := range ids {
+				atomic.StoreInt64(&bReady, int64(i+1))
+				for atomic.LoadInt64(&aReady) < int64(i+1) {
+				}
+				spin((i / 40) % 40)
+				ds.Deny(id, 50000)
+			}
+		}()
+		wg.Wait()
+		al := map[string]bool{}
+		for _, id := range ds.GetAllowList() {
+			al[id] = true
+		}
+		for _, id := range ds.GetDenyList() {
+			if al[id] {
+				if both == 0 {
+					firstBoth = id
+				}
+				both++
+			}
+		}
+		for _, id := range ids { // keep the store small
+			ds.Deny(id, 10)
+		}
+		ds.Prune()
+	}
+	res.Count("concurrent:session-vs-deny")
+	if both > 0 {
+		report("on-both-lists", fmt.Sprintf("a session request (AllowIfNotDenied) and a deny for the same fresh booking id overlapped: afterwards %d ids are on the deny list AND on the allow list (first: %q)", both, firstBoth),
+			map[string]interface{}{"kind": "session-vs-deny", "both": both})
+	}
 }
